@@ -24,7 +24,7 @@ func verifSymOp(name string, maxStr int) verifOp {
 		u:    vt.Uint64(name + ".u"),
 		b:    vt.Byte(name + ".b"),
 		bl:   vt.Bool(name + ".bl"),
-		n:    vt.IntRange(name+".n", 0, 200), // crosses the one-byte/two-byte uvarint boundary at 128
+		n:    vt.IntRange(name+".n", 0, 70000), // crosses the uvarint boundaries at 128 and 16384 (1/2/3 length bytes)
 	}
 }
 
